@@ -110,7 +110,7 @@ func C02(r *eng.Run) {
 	if r.Thorough() {
 		nlead = 3
 	}
-	leads := append(append(LeadSweep(nlead), WordShapes()...), LimitShapes()...)
+	leads := append(append(append(LeadSweep(nlead), WordShapes()...), LimitShapes()...), WeylShapes(48)...)
 	smx := SmallShapes()
 	r.Bounds["lead_prefix_digits"] = nlead
 	r.Par(len(leads), func(w *eng.W, i int) {
